@@ -263,8 +263,16 @@ func (jenny RawTypes) defaultsForStructRec(context languages.Context, objectRef 
 		extraDefaults = val
 	}
 
+	// the fields of a struct generated from a disjunction are its branches: a constant one
+	// (`"auto" | int`) is a branch that can be selected, not a value the struct starts from.
+	fieldsAreBranches := objectType.IsStructGeneratedFromDisjunction()
+
 	for _, field := range objectType.Struct.Fields {
 		resolvedFieldType := context.ResolveRefs(field.Type)
+
+		if fieldsAreBranches && extraDefaults[field.Name] == nil {
+			continue
+		}
 
 		needsExplicitDefault := field.Type.Default != nil ||
 			extraDefaults[field.Name] != nil ||
